@@ -21,6 +21,7 @@ type GenOpts struct {
 	PDisposable                                 int // probability an output type is a D type
 	PReuseType                                  int // probability an output reuses a concrete type already produced elsewhere
 	PSingleIface                                int // single-return constructor declared with an interface result type
+	PMultiIface                                 int // multi-return constructor: one result declared with an interface type
 	PStaticKind                                 int // dependency-free single-output registrations use a closure / method value instead of reflect.MakeFunc
 
 	// lifetimes weights (singleton, scoped, transient)
@@ -68,7 +69,7 @@ func defaultGen() GenOpts {
 		PBuiltinDep: 100, PGroupDep: 300, POptionalMissing: 100, PIgnored: 60, POptionalReg: 100, PEmbedType: 80,
 		MaxDeps:     3,
 		PDisposable: 500,
-		PReuseType:  150, PSingleIface: 120, PStaticKind: 350,
+		PReuseType:  150, PSingleIface: 120, PMultiIface: 150, PStaticKind: 350,
 		WLife:    [3]int{3, 4, 3},
 		MinTasks: 1, MaxTasks: 3, MaxOps: 8,
 		WOp:                [8]int{0, 10, 3, 4, 2, 1, 1, 0},
@@ -221,6 +222,9 @@ func (g *gen) genConfig() *Config {
 				} else if !o.NoResultGroup && g.p(StCfg, o.PResultGroup) {
 					out.Group = groupPool[g.n(StCfg, len(groupPool))]
 				}
+			}
+			if (r.Form == FMulti || r.Form == FMultiErr) && j == nouts-1 && !ct.IsEmbeddable() && g.p(StCfg, o.PMultiIface) {
+				out.T = ifaceRef(g.n(StCfg, NI)) // the last result is declared as an interface
 			}
 			if (r.Form == FSingle || r.Form == FSingleErr) && !ct.IsEmbeddable() && g.p(StCfg, o.PSingleIface) {
 				out.T = ifaceRef(g.n(StCfg, NI))
